@@ -17,6 +17,7 @@ import (
 	"encoding/json"
 	"go/types"
 	"os"
+	"path/filepath"
 	"regexp"
 	"sort"
 	"strings"
@@ -334,10 +335,8 @@ func translate(s string, oldToNew map[string]string) string {
 
 // ResolveRenames compares the snapshot with the loaded program and fills nameBack.
 func ResolveRenames(p *Prog, path string) {
-	nameBack = map[types.Object]string{}
-	typeRenames = map[string]string{}
-	typeRenameRE = nil
-	RenamesResolved = nil
+	// entries are added, never reset: a run may load the tree more than once (thorough tier)
+	// and each load has its own objects
 	if path == "" {
 		return
 	}
@@ -717,6 +716,26 @@ func ResolveRenames(p *Prog, path string) {
 		}
 	}
 	sort.Strings(RenamesResolved)
+	RenamesResolved = uniq(RenamesResolved)
+}
+
+// DeclsPath is the snapshot consulted by Load ("" = none).
+var DeclsPath string
+
+// DefaultDeclsPath: $VG_DECLS, or checker/anchors/decls.json next to the binary's directory.
+func DefaultDeclsPath() string {
+	if s := os.Getenv("VG_DECLS"); s != "" {
+		return s
+	}
+	exe, err := os.Executable()
+	if err != nil {
+		return ""
+	}
+	cand := filepath.Join(filepath.Dir(exe), "..", "checker", "anchors", "decls.json")
+	if _, err := os.Stat(cand); err == nil {
+		return cand
+	}
+	return ""
 }
 
 // methodAsFunc: a plain function that the snapshot knew as a method of the given receiver.
